@@ -1,9 +1,14 @@
 /-
   C06 — large-volume splitting is complete, bounded and minimal.
-  Theorems about `partitionVolume` (the model of `partition_volume`, tied to /repo by the
-  correspondence stream `partition_volume`) and about the transfer plan built from it.
+  Theorems about `partitionVolume` (the model of `partition_volume`) and about the transfer plan built
+  from it.  `partition_volume` is tied to /repo twice: its source is re-translated statement by statement
+  on every run (`Generated.partition_volume`, harness/translate_fns.py) and proved equal to the model
+  (`GenFns.gen_partition_volume_ok`), so `source_partition_spec` is the specification of the function
+  *as the source reads now* (exact-arithmetic reading); and the correspondence stream compares the running
+  binary64 code with the model on a dense grid.
 -/
 import Robotools.Model.Plan
+import Robotools.Proofs.GenFns
 import Mathlib.Data.Rat.Floor
 import Mathlib.Tactic.Linarith
 import Mathlib.Tactic.FieldSimp
@@ -130,5 +135,14 @@ theorem multi_disp_unchanged (M v : Rat) (md : Int) (h : (md : Rat) * v ≤ M) :
 example : partitionVolume 1 (3/5) = [1/2, 1/2] := by decide +kernel
 example : partitionVolume 2000 950 = [667, 667, 666] := by decide +kernel
 example : (0 : Rat) < 3/5 ∧ (0 : Rat) < 1 := by decide +kernel
+
+/-- The specification, stated about `partition_volume` as it is written in /repo **now** (its source
+    translated statement by statement, exact-arithmetic reading of the numbers). -/
+theorem source_partition_spec (v M : Rat) (hM : 0 < M) (hv : 0 < v) :
+    (Generated.partition_volume v M).sum = v
+    ∧ (∀ s ∈ Generated.partition_volume v M, 0 < s ∧ s ≤ M)
+    ∧ (Generated.partition_volume v M).length = max 1 (v / M).ceil.toNat := by
+  rw [GenFns.gen_partition_volume_ok v M hM (le_of_lt hv)]
+  exact partition_spec v M hM hv
 
 end Robotools.C06
